@@ -65,6 +65,12 @@ def mask_guard_of_loop(loop, chan_name_hint=None):
         return out
     if "enumerate" not in meths or len(names) != 2:
         return out
+    # the whole chain must be one of the channel-loop forms: any other adaptor (skip, take, rev, step_by, zip, ..) changes which channels are
+    # visited or how they are numbered, so the loop is not recognised (the callers fail closed)
+    if meths not in (["iter", "enumerate"], ["iter_mut", "enumerate"], ["iter", "enumerate", "filter"], ["iter_mut", "enumerate", "filter"]) \
+            or any(c["args"] for c in chain if c["name"] != "filter"):
+        out["unrecognised_chain"] = meths
+        return out
     out["chan"], out["elem"] = names[0], names[1]
     body = [s for s in loop["body"]["stmts"]]
     if "filter" in meths:
@@ -150,6 +156,10 @@ def extract(facts, tname):
             continue
         if e is not None and e.get("k") == "for":
             cw = find_copy_within(e)
+            if cw is not None and self_field_root(e["iter"]) == "buffer" and not (
+                    e["iter"].get("k") == "mcall" and e["iter"]["name"] == "iter_mut" and not e["iter"]["args"] and ir.is_self_field(e["iter"]["recv"], "buffer")):
+                raise AnchorMissing("%s: the history shift at line %s does not run over exactly `self.buffer.iter_mut()` (%s): an adaptor would leave some channel unshifted"
+                                    % (tname, e.get("ln"), show(e["iter"])[:60]))
             if cw is not None and self_field_root(e["iter"]) == "buffer":
                 rng = cw["recv"] and cw["args"][0]
                 if rng.get("k") != "range" or not rng.get("lo") or not rng.get("hi"):
